@@ -21,6 +21,32 @@ def tables(x):
     return out
 
 
+def family_reference(vt):
+    """CPython whose opcode names / operand categories a version without interpreter shares: 2.7 for 1.x-2.x,
+    3.6 for 3.0-3.5 (an opcode keeps its name only while it keeps its meaning)"""
+    if vt >= (3, 6) or vt == (2, 7):
+        return None
+    return "2.7" if vt < (3, 0) else "3.6"
+
+
+def family_consistency(name, opc, ref, cats):
+    """[(opname, category, xdis_has, family_has)] for same-named opcodes categorised differently"""
+    vt = tuple(opc.version_tuple[:2])
+    rmap = dict((norm(n), c) for n, c in ref["opmap"].items())
+    out = []
+    for n, num in sorted(opc.opmap.items()):
+        if norm(n) not in rmap:
+            continue
+        if vt < (1, 3) and n in ("LOAD_FAST", "STORE_FAST"):
+            continue        # before 1.3 these indexed the names table (RESERVE_FAST era)
+        for cat in cats:
+            a = num in getattr(opc, cat)
+            b = rmap[norm(n)] in ref.get(cat, [])
+            if a != b:
+                out.append((n, cat, a, b))
+    return out
+
+
 class C09:
     id = "C09"
     rule = ("enumerated: every distinct table module in xdis.op_imports x 256 opcode numbers x 7 category sets; "
@@ -33,7 +59,8 @@ class C09:
             "opcode of a table; distinct = (table, opcode)")
     assumptions = ["CPython's opcode module is ground truth for its version",
                    "tables of versions with no interpreter are only checked for internal consistency and against "
-                   "the historical corpus files"]
+                   "the historical corpus files, and for 'an opcode of the same name has the same operand category as in the "
+                   "CPython of its family (2.7 for 1.x-2.6, 3.6 for 3.0-3.5)'; LOAD_FAST/STORE_FAST before 1.3 excepted"]
     exhaustive = {"quick": True, "thorough": True}
     budgets = {"quick": {"shards": 8, "examples": 2000, "seconds": 70},
                "thorough": {"shards": 16, "examples": 5000, "seconds": 600}}
@@ -152,6 +179,12 @@ class C09:
                         name, cat, [(n, ref["opname"][n]) for n in sorted(r - xs)], [(n, opc.opname[n]) for n in sorted(xs - r)]))
         else:
             res.classes.append("intrinsic-only")
+            fam = family_reference(vt)
+            if fam:
+                res.classes.append("family-consistency:" + fam)
+                for n, cat, a, b in family_consistency(name, opc, self.ref_tables(ctx, fam), CATS):
+                    res.fail("C09|%s|family-category|%s|%s" % (tag, cat, n), "%s: %s %s %s, but CPython %s (same opcode name, same family) %s" % (
+                        name, n, "is in" if a else "is not in", cat, fam, "has it there" if b else "does not"))
         return res
 
     # ------------------------------------------------------------------
